@@ -229,6 +229,65 @@ func runC18(c *Ctx) {
 			}
 		}
 		c.Check(bad == "", "C18.R4", "NewHostRule: bare domain => that name with the unspecified IPv4 address", nhr.Pos(), "guarded by IsDomainName(first token)", bad)
+
+		// R10: in the address form the line is rejected exactly when the first token does not parse
+		// as an address (whatever netip.ParseAddr accepts is an address: IPv4, IPv6, zoned IPv6)
+		c.Rule("C18.R10", "PDT", "address form: rejected iff netip.ParseAddr fails on the first token", 1)
+		bad = ""
+		if len(acts) == 0 {
+			bad = "UNDECIDED: the tokenizer is never called"
+		} else {
+			first := token(acts[0])
+			var perrNil Ref = False
+			for _, at := range u.atoms {
+				if at.Op == "eq" && at.Args[1].IsNil() && at.Args[0].Op == "extract" && at.Args[0].Aux == "1" && at.Args[0].Args[0].Op == "call" &&
+					at.Args[0].Args[0].Aux == "net/netip.ParseAddr" && at.Args[0].Args[0].Args[0] == first {
+					perrNil = u.Atom(at)
+				}
+			}
+			// the remainder after the first token decides the form
+			var rem1 *E
+			if tok.Signature.Results().Len() == 2 {
+				rem1 = g.RetExpr(acts[0], 1)
+			} else {
+				for _, ef := range acts[0].Effects {
+					if ef.Kind == "store" && ef.Addr == acts[0].Env[tok.Params[0]] {
+						rem1 = ef.Val
+					}
+				}
+			}
+			reject := False
+			for _, r := range s.Rets {
+				if len(r.Vals) == 2 && r.Vals[0].IsNil() {
+					reject = u.bdd.Or(reject, r.Cond)
+				}
+			}
+			// the scans of the tokenizer and the name loop terminate
+			proj := func(f Ref) Ref {
+				for _, sub := range append([]*Summary{s}, g.Subs...) {
+					for _, l2 := range loopsOf(sub.Fn) {
+						for _, v := range u.bdd.Support(contCond(u, sub, l2)) {
+							f = u.bdd.Exists(f, v)
+						}
+					}
+				}
+				return f
+			}
+			switch {
+			case perrNil == False:
+				bad = "the first token of the address form is not parsed with netip.ParseAddr"
+			case rem1 == nil:
+				bad = "UNDECIDED: the remainder after the first token is not evaluated"
+			default:
+				addrForm := u.bdd.Not(u.ToBool(u.Eq(u.Len(rem1), u.Int(0))))
+				got := proj(u.bdd.And(reject, addrForm))
+				want := proj(u.bdd.And(addrForm, u.bdd.Not(perrNil)))
+				if got != want {
+					bad = "a line \"<address> <names...>\" is not rejected exactly when netip.ParseAddr fails on the address: differs when " + clip(u.ShowBool(u.bdd.Xor(got, want)), 200) + " (e.g. a zoned IPv6 address such as fe80::1%lo0 is a valid address)"
+				}
+			}
+		}
+		c.Check(bad == "", "C18.R10", "NewHostRule: address form rejected iff the address does not parse", nhr.Pos(), "error return condition equals ParseAddr(first token) failing", bad)
 	}
 
 	// ---------- R2 / R3 tokenizer ----------
